@@ -1508,7 +1508,12 @@ impl Reference
 		}
 		else
 		{
-			unreachable!()
+			// This can only happen if the declaration of the base was
+			// rejected earlier, in which case no IR will be emitted.
+			return Err(anyhow::anyhow!(
+				"reference to undeclared '{}'",
+				self.base.name
+			));
 		};
 
 		if self.steps.is_empty()
